@@ -10,6 +10,7 @@ Spec: spec/Subpackets.tla (HashedRegion = octets as on the wire), spec/SigHash.t
                 (C05.foreign-verifies); every single-bit flip of the hashed region must not verify (C05.bitflip)
 """
 import struct
+import warnings
 
 from .. import build, sigs
 from ..common import MachineryError, import_pgpy
@@ -211,7 +212,31 @@ def record_foreign(ctx, blobs, pub, pkt, hin, doc, t, critical, cname, form, kep
     return e
 
 
-def bitflip_events(ctx, blobs, kept, pub, kblob, fk, doc):
+def rsa_signer_events(ctx, blobs):
+    """the header octets (version, type, public-key algorithm, hash algorithm) are part of the hashed region too: foreign RSA
+    signers with algorithm id 1 and with the deprecated sign-only id 3, whose header differs in exactly that octet."""
+    pgpy = import_pgpy()
+    fev, bev = [], []
+    doc = b'signed by an RSA key\n'
+    for kind in ('rsa2048', 'rsa2048#3'):
+        fk = build.ForeignKey(kind)
+        kblob = build.transferable_key(fk, [('RSA %s <r@example.org>' % kind).encode()])
+        with warnings.catch_warnings():
+            warnings.simplefilter('ignore')
+            try:
+                pub = pgpy.PGPKey.from_blob(kblob)[0]
+            except Exception as ex:
+                ctx.note('foreign %s key not loadable: %s' % (kind, repr(ex)[:80]))
+                continue
+        kept = []
+        for t, body in ((27, b'\x03'), (100, b'private'), (26, b'https://example.org/p')):
+            pkt, hin = build.sig_packet(fk, 0x00, 'sha256', [build.subpacket(t, body)], [], build.subject_octets(0x00, doc=doc), created=1262305000)
+            fev.append(record_foreign(ctx, blobs, pub, pkt, hin, doc, t, False, '%s-signer' % kind, None, kept))
+        bev += bitflip_events(ctx, blobs, kept[:1] if ctx.quick else kept, pub, kblob, fk, doc, maxlen=4000)
+    return fev, bev
+
+
+def bitflip_events(ctx, blobs, kept, pub, kblob, fk, doc, maxlen=200):
     ev = []
     vkb = blobs.add(kblob)
     signer = {'kb': vkb, 'idx': sigs.key_index(kblob, fk.fingerprint.hex())}
@@ -221,7 +246,7 @@ def bitflip_events(ctx, blobs, kept, pub, kblob, fk, doc):
     chosen = []
     for item in kept:
         cls = (item[2], item[3].split('-')[0])
-        if cls not in seen and len(item[0]) < 200:
+        if cls not in seen and len(item[0]) < maxlen:
             seen.add(cls)
             chosen.append(item)
     limit = 25 if ctx.quick else 400
@@ -259,6 +284,9 @@ def run(ctx):
     blobs = sigs.Blobs()
     fev, kept, pub, kblob, fk, doc = foreign_signature_events(ctx, blobs)
     bev = bitflip_events(ctx, blobs, kept, pub, kblob, fk, doc)
+    fev2, bev2 = rsa_signer_events(ctx, blobs)
+    fev += fev2
+    bev += bev2
     ev = fev + bev
     for e in fev:
         ctx.case(('foreign', e['sptype'], e['critical'], e['cls'], e['form']))
